@@ -511,7 +511,18 @@ def numpy_frozen_stream(ctx, ExcelCompiler):
                 trimmed.evaluate(outs)
             trimmed.trim_graph(['S!E1'], outs)
         except Exception as exc:      # noqa: BLE001
-            ctx.violation(case, f"trim_graph raises {type(exc).__name__}: {exc}"[:200])
+            # trim_graph evaluates the outputs: when the UNTRIMMED model raises the same error on them (EXP of a
+            # huge frozen slope overflows) there is no untrimmed answer to preserve - outside the property
+            try:
+                ExcelCompiler(excel=build()).evaluate(outs)
+                same_failure = False
+            except Exception as exc2:      # noqa: BLE001
+                same_failure = type(exc2) is type(exc)
+            if same_failure:
+                ctx.histogram['trim-numpy-frozen: untrimmed raises too (skipped)'] = \
+                    ctx.histogram.get('trim-numpy-frozen: untrimmed raises too (skipped)', 0) + 1
+            else:
+                ctx.violation(case, f"trim_graph raises {type(exc).__name__}: {exc}"[:200])
             continue
         frozen = {a: c.value for a, c in trimmed.cell_map.items() if a.startswith('S!C') and not c.formula}
         kinds = sorted({type(v).__name__ for v in frozen.values()})
@@ -552,28 +563,36 @@ def numpy_frozen_stream(ctx, ExcelCompiler):
                     ctx.violation(shown, f"outputs of the {name.split(':')[0]} model differ from the untrimmed model",
                                   impl=res[name], expected=res['untrimmed'])
                     continue
+                e1 = assign.get('S!E1', cells['E1'])
+                scale = max([abs(float(v)) for v in frozen.values()
+                             if isinstance(v, (int, float)) and not isinstance(v, bool)] or [0.0]) * \
+                    (abs(float(e1)) if isinstance(e1, (int, float)) and not isinstance(e1, bool) else 1.0)
                 for o, got, want in zip(outs, res[name], res['untrimmed']):      # every differing output on its own
                     if got != want:
                         ctx.violation(dict(shown, output=o, output_formula=cells[o.split('!')[1]],
-                                           diff='float-last-bits' if _last_bits(got, want) else 'other'),
+                                           diff='float-last-bits' if _last_bits(got, want) else
+                                           'float-last-bits-of-summands' if _last_bits(got, want, scale) else 'other'),
                                       f"an output of the {name.split(':')[0]} model differs from the untrimmed model "
                                       "(class / bits)", impl=got, expected=want)
 
 
-def _last_bits(a, b):
-    """two exact_bits observations: floats that differ by rounding only (relative 1e-14)"""
+def _last_bits(a, b, scale=None):
+    """two exact_bits observations: floats that differ by rounding only (relative 1e-14; with `scale`: 1e-14 of the
+    largest summand times the input, the rounding of a sum whose terms cancel)"""
     if not (isinstance(a, list) and isinstance(b, list) and len(a) == 2 == len(b) and a[0] == 'float' == b[0]):
         return False
     u, v = float.fromhex(a[1]), float.fromhex(b[1])
-    return abs(u - v) <= 1e-14 * max(abs(u), abs(v))
+    return abs(u - v) <= 1e-14 * (max(abs(u), abs(v)) if scale is None else scale)
 
 
 @known_predicate('C08-frozen-numpy-sum-rounding')
 def _frozen_numpy_sum(case):
     """numpy-frozen stream, a LOADED leg, the differing output is a SUM over the range of frozen cells and the two
-    floats differ by rounding only: sum() adds exact floats with compensation and numpy floats one by one"""
+    floats differ by rounding only (1e-14 of the result, or - when the summands cancel - 1e-14 of the largest
+    summand times the input): sum() adds exact floats with compensation and numpy floats one by one"""
     return case.get('call') == 'trim-numpy-frozen' and str(case.get('leg', '')).startswith('loaded') and \
-        str(case.get('output_formula', '')).startswith('=SUM(C1:C') and case.get('diff') == 'float-last-bits'
+        str(case.get('output_formula', '')).startswith('=SUM(C1:C') and \
+        case.get('diff') in ('float-last-bits', 'float-last-bits-of-summands')
 
 
 # ------------------------------------------------------------------ unbounded row / column ranges
